@@ -308,7 +308,7 @@ XSI_DECL = 'xmlns:xsi="http://www.w3.org/2001/XMLSchema-instance"'
 def shape(data):
     """Plain infoset shape (names, attributes incl. xsi:nil, stripped text, children) - enough for the probes."""
     def walk(e):
-        return (e.tag, tuple(sorted(e.attrib.items())), (e.text or "").strip(), tuple(walk(c) for c in e if isinstance(c.tag, str)))
+        return (e.tag, tuple(sorted(e.attrib.items())), (e.text or "").strip(), (e.tail or "").strip(), tuple(walk(c) for c in e if isinstance(c.tag, str)))
 
     return walk(etree.fromstring(data))
 
@@ -360,6 +360,12 @@ PROBES = {
     "C02/qname-child-of-mixed-type-written-in-clark-notation": (
         (root_schema(el("a", "xs:QName"), mixed=True), '<root xmlns:xs="http://www.w3.org/2001/XMLSchema">t<a>xs:string</a></root>', {}),
         (root_schema(el("a", "xs:QName"), mixed=False), '<root xmlns:xs="http://www.w3.org/2001/XMLSchema"><a>xs:string</a></root>', {}),
+    ),
+    "C02/tail-after-wildcard-child-moves-into-the-child": (
+        (root_schema('<xs:element name="part"><xs:complexType><xs:sequence><xs:any namespace="##other" processContents="lax" minOccurs="0"/>' + el("node", "xs:string") + "</xs:sequence></xs:complexType></xs:element>" + el("size", "xs:string"), mixed=True),
+         "<root><part><node>x</node></part>tail<size>s</size></root>", {}),
+        (root_schema('<xs:element name="part"><xs:complexType><xs:sequence>' + el("node", "xs:string") + "</xs:sequence></xs:complexType></xs:element>" + el("size", "xs:string"), mixed=True),
+         "<root><part><node>x</node></part>tail<size>s</size></root>", {}),
     ),
     "C02/compound-choice-loses-element-default": (
         (XSH + '<xs:element name="root"><xs:complexType><xs:choice maxOccurs="unbounded">' + el("a", "xs:decimal", ' default="1.5"') + el("b", "xs:string") + "</xs:choice></xs:complexType></xs:element></xs:schema>",
